@@ -121,6 +121,7 @@ Theorem c11_stop_next :
     ~ (Endlist pl = true /\ pos = len (Segments pl) - 1) ->
     nth_error (fp :: rest) (S k) = Some pl' ->
     m + 1 < MediaSequence pl' \/ MediaSequence pl' + len (Segments pl') <= m + 1 ->
+    ~ ended_after m pl' ->   (* not: ENDLIST and m was its last segment - that is c11_eos_endlist_after_last *)
     l2 = [EvPlaylist (S k) false] /\ o = OErrNext.
 Proof. exact stop_next. Qed.
 Print Assumptions c11_stop_next.
@@ -172,33 +173,63 @@ Proof. exact server_gone. Qed.
 Print Assumptions c11_server_gone.
 
 (* ---------- c11_eos ---------- *)
-(* PARTIAL: holds when the last segment is requested FROM a playlist that already carries ENDLIST *)
-Theorem c11_eos_partial :
+(* the model follows /repo after fix 3b9aa17 (former finding C11-F11): full strength *)
+
+(* the request for the last segment of an ENDLIST playlist, selected from that playlist, is the
+   final request and the stream ends *)
+Theorem c11_eos_last_segment :
   forall (resolve : string -> string -> option string) (purl : string) (fp : playlist)
          (rest : list playlist) (log : list event) (o : outcome) (l1 : list event) (k : nat)
          (pos m : Z) (seg : segment) (l2 : list event) (pl : playlist),
     requested resolve purl (fp :: rest) log o l1 k pos m seg l2 pl ->
     Endlist pl = true -> pos = len (Segments pl) - 1 ->
     l2 = [] /\ o = OEOS.
-Proof. exact eos_partial. Qed.
-Print Assumptions c11_eos_partial.
+Proof. exact eos_last_segment. Qed.
+Print Assumptions c11_eos_last_segment.
 
-Theorem c11_eos_only_after_last :
+(* ENDLIST shows up at the next poll and segment m was that playlist's last one: one playlist
+   request, then the stream ends - no error, no further request *)
+Theorem c11_eos_endlist_after_last :
+  forall (resolve : string -> string -> option string) (purl : string) (fp : playlist)
+         (rest : list playlist) (log : list event) (o : outcome) (l1 : list event) (k : nat)
+         (pos m : Z) (seg : segment) (l2 : list event) (pl pl' : playlist),
+    requested resolve purl (fp :: rest) log o l1 k pos m seg l2 pl ->
+    ~ (Endlist pl = true /\ pos = len (Segments pl) - 1) ->
+    nth_error (fp :: rest) (S k) = Some pl' ->
+    Endlist pl' = true -> m = MediaSequence pl' + len (Segments pl') - 1 ->
+    l2 = [EvPlaylist (S k) false] /\ o = OEOS.
+Proof. exact eos_endlist_after_last. Qed.
+Print Assumptions c11_eos_endlist_after_last.
+
+(* history level: for every history of a consistent server (a playlist carrying ENDLIST never
+   changes again - RFC 8216 6.2.1 -, the last media sequence number never moves backwards):
+   whenever the client has polled a playlist carrying ENDLIST and has requested that playlist's
+   last media sequence number, the stream ends with EOS.
+   (eos_full is the statement that was refuted for the code before 3b9aa17.) *)
+Theorem c11_eos :
+  forall (resolve : string -> string -> option string) (purl : string) (h : list playlist),
+    endlist_final h -> end_monotone h ->
+    forall log o, run resolve purl h = (log, o) ->
+    forall k pl s, nth_error h k = Some pl -> Endlist pl = true -> In (EvPlaylist k s) log ->
+      In (MediaSequence pl + len (Segments pl) - 1) (map ev_msn (seg_events log)) ->
+      o = OEOS.
+Proof. exact eos_full_consistent. Qed.
+Print Assumptions c11_eos.
+
+(* EOS arises only in these two ways *)
+Theorem c11_eos_only_at_end :
   forall (resolve : string -> string -> option string) (purl : string) (fp : playlist)
          (rest : list playlist) (log : list event) (o : outcome),
     run resolve purl (fp :: rest) = (log, o) -> o = OEOS ->
-    exists l1 k pos m seg pl,
-      log = l1 ++ [EvSegment k pos m seg] /\ nth_error (fp :: rest) k = Some pl /\
-      Endlist pl = true /\ pos = len (Segments pl) - 1.
-Proof. exact eos_only_after_last. Qed.
-Print Assumptions c11_eos_only_after_last.
-
-(* REFUTED (finding C11:eos:endlist-after-last-segment): "whenever the client has polled a playlist
-   carrying ENDLIST and has requested that playlist's last media sequence number, it ends with
-   EOS" fails when ENDLIST is added after the client already fetched the final segment *)
-Theorem c11_eos_refuted : exists h, ~ eos_full xres "http://h/p.m3u8" h.
-Proof. exact eos_full_refuted. Qed.
-Print Assumptions c11_eos_refuted.
+    (exists l1 k pos m seg pl,
+       log = l1 ++ [EvSegment k pos m seg] /\ nth_error (fp :: rest) k = Some pl /\
+       Endlist pl = true /\ pos = len (Segments pl) - 1) \/
+    (exists l1 k pos m seg pl',
+       log = l1 ++ [EvSegment k pos m seg; EvPlaylist (S k) false] /\
+       nth_error (fp :: rest) (S k) = Some pl' /\
+       Endlist pl' = true /\ m = MediaSequence pl' + len (Segments pl') - 1).
+Proof. exact eos_only_at_end. Qed.
+Print Assumptions c11_eos_only_at_end.
 
 (* when every stream ended Client.Wait returns ErrClientEOS, and only then *)
 Theorem c11_client_eos :
